@@ -44,7 +44,23 @@ def once_per_use(ctx, facts, roles, p, cfg, name, e, K2="K2", K3="K3"):
     # where the iteration over the operand list starts in the root function: calls that receive a per-element
     # closure, and headers of loops containing per-element code
     iter_blocks = set()
+    expanded = []
     for s in interp:
+        # an interpreter call that sits in a helper function stands for the helper's call sites in the unit
+        todo, hops = [s], 0
+        while todo and hops < 4:
+            hops += 1
+            nxt = []
+            for s_ in todo:
+                if u.per_element(s_) == "helper":
+                    owner = s_.body
+                    while owner.kind == "closure" and owner.creator():
+                        owner = owner.creator()[0]
+                    nxt.extend(s2 for s2 in u.calls(lambda c, _k=owner.key: c.get("key") == _k))
+                else:
+                    expanded.append(s_)
+            todo = nxt
+    for s in expanded:
         k = u.per_element(s)
         if k == "closure":
             cur = s.body
